@@ -42,11 +42,19 @@ CONSTANTS NC,          \* number of conditions
           Stacks,      \* the set of stacks (sequences of vectors) explored
           Transforms,  \* set of transform records [n, m, q]
           MeasClasses, \* subset of {"none", "plain", "sqeuclid", "ranked"}
-          NaNv,        \* the mark of a missing entry (outside the value grid)
+          NaNv,        \* the mark of a missing entry (far outside every value that can arise)
+          MaxChain,    \* transforms applied in sequence (1 = a single transform)
+          ChainTransforms,  \* the transforms that may follow another one
+          GenMode,     \* TRUE: the stack is not drawn from Stacks but built entry by entry by GenStep
+                       \* (random walks of `tlc -simulate` over stacks far too many to enumerate)
+          GenNR, GenVals,   \* ... with 1..GenNR RDMs over these values
           EmitMod
 
-VARIABLES x, tr, meas, pc, out
-vars == <<x, tr, meas, pc, out>>
+\* x is the INPUT OF THE CURRENT STEP in integer representation: the true values are x / sc  (sc = 1 and
+\* x = src for the first transform); src is the stack the chain started from, chain the transforms
+\* applied before tr, prev the input of the previous step
+VARIABLES x, sc, src, chain, prev, tr, meas, pc, out, nr, nanok
+vars == <<x, sc, src, chain, prev, tr, meas, pc, out, nr, nanok>>
 
 T(n, m, q) == [n |-> n, m |-> m, q |-> q]
 NaNR == <<0, 0>>
@@ -84,13 +92,14 @@ RankVec(v, method) == [k \in 1..Len(v) |-> IF IsNaN(v[k]) THEN NaNR ELSE <<RankA
 
 (* ---------------- element-wise maps -------------------------------------- *)
 Pos(v) == IF v < 0 THEN 0 ELSE v
-PosVec(v) == [k \in 1..Len(v) |-> IF IsNaN(v[k]) THEN NaNR ELSE <<Pos(v[k]), 1>>]
+\* (c is the scale of the integer representation: the true value of entry v is v / c)
+PosVec(v, c) == [k \in 1..Len(v) |-> IF IsNaN(v[k]) THEN NaNR ELSE <<Pos(v[k]), c>>]
 \* custom functions: 1: 2x+1   2: x^2   3: -x   4: the vector reversed (not element-wise)
-CustomVec(v, f) ==
+CustomVec(v, f, c) ==
   [k \in 1..Len(v) |->
-     LET src == IF f = 4 THEN v[Len(v) + 1 - k] ELSE v[k] IN
-     IF IsNaN(src) THEN NaNR
-     ELSE CASE f = 1 -> <<2 * src + 1, 1>> [] f = 2 -> <<src * src, 1>> [] f = 3 -> <<-src, 1>> [] f = 4 -> <<src, 1>>]
+     LET e == IF f = 4 THEN v[Len(v) + 1 - k] ELSE v[k] IN
+     IF IsNaN(e) THEN NaNR
+     ELSE CASE f = 1 -> <<2 * e + c, c>> [] f = 2 -> <<e * e, c * c>> [] f = 3 -> <<-e, c>> [] f = 4 -> <<e, c>>]
 
 (* ---------------- minmax ------------------------------------------------- *)
 MinMaxVec(v) == LET lo == VMin(v)  d == VMax(v) - VMin(v) IN [k \in 1..Len(v) |-> <<v[k] - lo, d>>]
@@ -114,7 +123,10 @@ GeoVec(v, lo, up) ==
   [k \in 1..Len(v) |->
      IF v[k] * lo[2] < lo[1] THEN <<0, 1>>
      ELSE IF v[k] * up[2] > up[1] THEN <<1, 1>>
-     ELSE <<(v[k] * lo[2] - lo[1]) * up[2], span>>]
+     ELSE <<(v[k] * lo[2] - lo[1]) * up[2], span>>]        \* (span > 0 here: see Admissible)
+\* no entry sits on the common threshold when the two thresholds coincide (l = u: a step function,
+\* undefined exactly at the threshold)
+OffThreshold(s, q) == LET lo == GeoLo(s, q) IN \A i \in 1..Len(s) : \A k \in 1..Len(s[i]) : s[i][k] * lo[2] # lo[1]
 
 (* ---------------- geodesic ----------------------------------------------- *)
 \* edge weights: numerators of the min-max values; the common denominator is max - min
@@ -142,22 +154,23 @@ GeodesicVec(v, keepZero) ==
   [k \in 1..L |-> IF d[Pairs[k][1]][Pairs[k][2]] >= INF THEN InfR ELSE <<d[Pairs[k][1]][Pairs[k][2]], den>>]
 
 (* ---------------- the transforms ----------------------------------------- *)
-Apply(t, s) ==
+Apply(t, s, c) ==
   CASE t.n = "rank"     -> [i \in 1..Len(s) |-> RankVec(s[i], t.m)]
-    [] t.n = "positive" -> [i \in 1..Len(s) |-> PosVec(s[i])]
-    [] t.n = "sqrt"     -> [i \in 1..Len(s) |-> PosVec(s[i])]          \* the SQUARE of the result
-    [] t.n = "custom"   -> [i \in 1..Len(s) |-> CustomVec(s[i], t.q[1])]
+    [] t.n = "positive" -> [i \in 1..Len(s) |-> PosVec(s[i], c)]
+    [] t.n = "sqrt"     -> [i \in 1..Len(s) |-> PosVec(s[i], c)]       \* the SQUARE of the result
+    [] t.n = "custom"   -> [i \in 1..Len(s) |-> CustomVec(s[i], t.q[1], c)]
     [] t.n = "minmax"   -> [i \in 1..Len(s) |-> MinMaxVec(s[i])]
     [] t.n = "geotopo"  -> LET lo == GeoLo(s, t.q)  up == GeoUp(s, t.q) IN [i \in 1..Len(s) |-> GeoVec(s[i], lo, up)]
     [] t.n = "geodesic" -> [i \in 1..Len(s) |-> GeodesicVec(s[i], TRUE)]
 
 \* admissible domain (nothing more is demanded of the implementation):
 \* NaN marks only for rank and the element-wise maps; minmax / geodesic per RDM non-constant;
-\* geotopo: the two thresholds differ
+\* geotopo: the two thresholds differ, or they coincide and no entry sits on the threshold
 Admissible(t, s) ==
   CASE t.n \in {"rank", "positive", "sqrt", "custom"} -> TRUE
     [] t.n \in {"minmax", "geodesic"} -> \A i \in 1..Len(s) : ~HasNaN(s[i]) /\ ~IsConstant(s[i])
-    [] t.n = "geotopo" -> (\A i \in 1..Len(s) : ~HasNaN(s[i])) /\ GeoSpan(s, t.q) > 0
+    [] t.n = "geotopo" -> /\ \A i \in 1..Len(s) : ~HasNaN(s[i])
+                          /\ (GeoSpan(s, t.q) > 0 \/ (GeoSpan(s, t.q) = 0 /\ OffThreshold(s, t.q)))
 
 \* the name of the dissimilarity measure must be updated (a rank transform of ranks is already named)
 MustRename(t, mc) == ~(t.n = "rank" /\ mc = "ranked")
@@ -166,12 +179,66 @@ MustRename(t, mc) == ~(t.n = "rank" /\ mc = "ranked")
 \* multiplying the state space
 MeasPick(s) == LET h == SumFunction([i \in 1..Len(s) |-> SumFunction([k \in 1..Len(s[i]) |-> Abs(s[i][k]) * k])])
                    ms == SetToSeq(MeasClasses) IN ms[(h % Len(ms)) + 1]
-Init == /\ x \in Stacks /\ tr \in Transforms
-        /\ Admissible(tr, x)
-        /\ meas = MeasPick(x)
-        /\ pc = "in" /\ out = <<>>
-Do == /\ pc = "in" /\ pc' = "out" /\ out' = Apply(tr, x) /\ UNCHANGED <<x, tr, meas>>
-Next == Do
+(* ---------------- chains: the result of a step as the integer input of the next one -------- *)
+RECURSIVE GCDt(_, _)
+GCDt(p, q) == IF q = 0 THEN p ELSE GCDt(q, p % q)
+LCM(p, q) == (p \div GCDt(p, q)) * q
+RECURSIVE LCMSet(_)
+LCMSet(S) == IF S = {} THEN 1 ELSE LET e == CHOOSE e \in S : TRUE IN LCM(e, LCMSet(S \ {e}))
+Finite(o) == \A i \in 1..Len(o) : \A k \in 1..Len(o[i]) : o[i][k] # InfR
+\* a further transform can follow unless the result holds +inf, or is stated only through its square
+Continuable(t, o) == t.n # "sqrt" /\ Finite(o)
+Dens(o) == {o[i][k][2] : i \in 1..Len(o), k \in 1..L} \ {0}
+RECURSIVE GCDSet(_)
+GCDSet(S) == IF S = {} THEN 0 ELSE LET e == CHOOSE e \in S : TRUE IN GCDt(e, GCDSet(S \ {e}))
+\* common denominator, then the common factor of all numerators and the denominator is divided out so
+\* that the integers stay small along a chain
+ToInt(o) == LET d0 == LCMSet(Dens(o))
+                num(i, k) == o[i][k][1] * (d0 \div o[i][k][2])
+                g == GCDSet({Abs(num(p[1], p[2])) : p \in {q \in (1..Len(o)) \X (1..L) : o[q[1]][q[2]] # NaNR}} \cup {d0}) IN
+            [y |-> [i \in 1..Len(o) |-> [k \in 1..Len(o[i]) |->
+                      IF o[i][k] = NaNR THEN NaNv ELSE num(i, k) \div g]],
+             d |-> d0 \div g]
+\* (32-bit integers: the theorems multiply numerators with denominators)
+Small(r) == r.d <= 300 /\ \A i \in 1..Len(r.y) : \A k \in 1..Len(r.y[i]) : IsNaN(r.y[i][k]) \/ Abs(r.y[i][k]) <= 300
+
+NoTr == T("none", "", <<>>)
+NoPrev == [x |-> <<>>, sc |-> 1]
+Init == /\ sc = 1 /\ chain = <<>> /\ prev = NoPrev /\ tr = NoTr /\ out = <<>>
+        /\ IF GenMode
+           THEN /\ x = <<<<>>>> /\ src = <<>> /\ nr \in 1..GenNR /\ nanok \in BOOLEAN
+                /\ meas = "plain" /\ pc = "gen"
+           ELSE /\ x \in Stacks /\ src = x /\ nr = Len(x) /\ nanok = TRUE
+                /\ meas = MeasPick(x) /\ pc = "in"
+
+\* generator: one more entry; a new RDM when the current one is complete; hand over when all are
+GenStep == /\ pc = "gen"
+           /\ \E v \in (IF nanok THEN GenVals \cup {NaNv} ELSE GenVals) :
+                LET row == Append(x[Len(x)], v)
+                    xs == [x EXCEPT ![Len(x)] = row] IN
+                IF Len(row) < L THEN x' = xs /\ UNCHANGED <<src, pc, meas>>
+                ELSE IF Len(x) < nr THEN x' = Append(xs, <<>>) /\ UNCHANGED <<src, pc, meas>>
+                ELSE x' = xs /\ src' = xs /\ pc' = "in" /\ meas' = MeasPick(xs)
+           /\ UNCHANGED <<sc, chain, prev, tr, out, nr, nanok>>
+
+Do == /\ pc = "in"
+      /\ \E t \in Transforms :
+           /\ Admissible(t, x)
+           /\ tr' = t /\ out' = Apply(t, x, sc) /\ pc' = "out"
+      /\ UNCHANGED <<x, sc, src, chain, prev, meas, nr, nanok>>
+
+Chain == /\ pc = "out" /\ Len(chain) + 1 < MaxChain /\ Continuable(tr, out)
+         /\ \E t \in ChainTransforms :
+              LET r == ToInt(out) IN
+              /\ Small(r) /\ Admissible(t, r.y)
+              \* a rank step only after steps whose float evaluation keeps exact ties exact (not after the
+              \* interpolated thresholds of geotopo or the path sums of geodesic)
+              /\ (t.n = "rank" => \A j \in 1..(Len(chain) + 1) :
+                       Append(chain, tr)[j].n \in {"rank", "positive", "custom", "minmax"})
+              /\ x' = r.y /\ sc' = r.d /\ prev' = [x |-> x, sc |-> sc]
+              /\ chain' = Append(chain, tr) /\ tr' = t /\ out' = Apply(t, r.y, r.d)
+         /\ UNCHANGED <<src, meas, pc, nr, nanok>>
+Next == GenStep \/ Do \/ Chain
 Spec == Init /\ [][Next]_vars
 
 (* ---------------- theorems ------------------------------------------------ *)
@@ -249,11 +316,24 @@ GeodesicTheorems == (Done /\ tr.n = "geodesic") =>
 CustomTheorems == (Done /\ tr.n = "custom") =>
    \A i \in Rows : \A k \in Idx :
       LET s == IF tr.q[1] = 4 THEN x[i][L + 1 - k] ELSE x[i][k] IN
-      IF IsNaN(s) THEN out[i][k] = NaNR ELSE out[i][k][2] = 1
+      IF IsNaN(s) THEN out[i][k] = NaNR ELSE out[i][k][2] > 0
+
+\* C17 h inside a chain: ranking after a strictly increasing step (minmax: affine per RDM; the custom
+\* function 2x+1) gives the ranks of the input of that step
+RankAfterIncreasing ==
+   (Done /\ tr.n = "rank" /\ chain # <<>> /\ (chain[Len(chain)].n = "minmax"
+                                               \/ (chain[Len(chain)].n = "custom" /\ chain[Len(chain)].q = <<1>>))) =>
+   out = Apply(tr, prev.x, prev.sc)
+\* the integer representation is faithful: x / sc are the values the previous step produced
+ChainFaithful == (Done /\ chain # <<>>) =>
+   LET po == Apply(chain[Len(chain)], prev.x, prev.sc) IN
+   \A i \in Rows : \A k \in Idx :
+      IF po[i][k] = NaNR THEN IsNaN(x[i][k]) ELSE ~IsNaN(x[i][k]) /\ x[i][k] * po[i][k][2] = po[i][k][1] * sc
 
 (* ---------------- emission ------------------------------------------------ *)
 Pick(n) == n = 1 \/ RandomElement(1..n) = 1
 Emit == (Done /\ Pick(EmitMod)) =>
-   PrintT(ToJson([x |-> x, tr |-> tr, meas |-> meas, rename |-> MustRename(tr, meas), out |-> out,
+   PrintT(ToJson([x |-> src, tr |-> tr, chain |-> Append(chain, tr), meas |-> meas,
+                  rename |-> MustRename(tr, meas), out |-> out,
                   nz |-> IF tr.n = "geodesic" THEN [i \in 1..Len(x) |-> GeodesicVec(x[i], FALSE)] ELSE <<>>]))
 =============================================================================
